@@ -45,4 +45,17 @@ CHECKS.update({
                     "path leaves numbers, dtype and unit of the target unchanged; copying routes never write their input",
             "note": TRUST, "technique": TECH},
 })
+CHECKS["C15"] = {
+    "category": "proof",
+    "text": "the tables _physical_ratios.py / physical_constants are re-executed from the current source with "
+            "exact rationals and, in a second pass, with every primitive measured number replaced by a free "
+            "positive symbol: the defining relations (hbar, eps_0*mu_0*c^2, Stefan-Boltzmann, radiation constant, "
+            "Rydberg, the six Planck units, qe=-qp) are proved as symbolic identities, i.e. for all values of the "
+            "primitives; every constant's SI value and dimension is compared with an independent table "
+            "(exhaustive), names that are both unit and constant are shown to be the same expression, names are "
+            "single-valued",
+    "note": TRUST + "; sympy simplification as the ground/symbolic evaluator; spec/constants.py; add_constants "
+            "(materialisation per registry / unit system) is not yet under contract",
+    "technique": "ground + symbolic-identity obligations over tables extracted from the AST (sympy exact), part of the contract-based framework",
+}
 NOT_APPLICABLE = {}
